@@ -2,6 +2,8 @@
 #include "vol_common.h"
 #include "Archive/VolFile.h"
 #include <unistd.h>
+#include <cstdio>
+#include <sys/types.h>
 
 using namespace verif;
 using namespace volgen;
@@ -237,6 +239,26 @@ void run_sweep(Stats& st) {
 		std::vector<InFile> fs;
 		for (unsigned i = 0; i < 700; ++i) { InFile f; f.name = "n" + std::to_string(100000 + i * 7919 % 100000) + "_" + std::string(92, char('a' + i % 26)) + std::to_string(i); f.content.assign(i % 5, uint8_t(i)); f.dir = i % 50 == 0 ? "%d0/" : ""; fs.push_back(f); }
 		Tape t(tp); success_case(t, st, fs, false);
+	}
+	// an archive beyond 2 GiB written by the library itself (about 2 s and, for that time, 2 GiB of scratch space): a sparse input of 2^31-1 bytes (the largest member the format takes) followed in
+	// name order by two small members whose blocks start beyond 2^31 - listed, streamed (by index and by name) and extracted like any other member
+	if (sw("huge_archive")) {
+		mkdirs("%in/"); mkdirs("%o/"); std::string big = "%in/a_huge.bin", out = "%o/huge_out.vol"; remove(out.c_str());
+		{ FILE* f = fopen(big.c_str(), "wb"); V_CHECK(f, "harness: sparse input"); const uint8_t a[3] = {7, 8, 9}; fwrite(a, 1, 3, f); fseeko(f, off_t(0x7FFFFFFF) - 3, SEEK_SET); const uint8_t z[3] = {0xE1, 0xE2, 0xE3}; fwrite(z, 1, 3, f); fclose(f); }
+		std::vector<uint8_t> late(4099), last = {1, 2, 3, 4, 5, 6}; for (size_t i = 0; i < late.size(); ++i) late[i] = uint8_t(i * 13 + 1);
+		write_file("%in/m_late.txt", late); write_file("%in/Z_last.dat", last);
+		std::string what; Out o = guarded([&] { VolFile::CreateArchive(out, {"%in/Z_last.dat", big, "./%in/m_late.txt"}); }, &what);
+		V_CHECK(o == Out::Ok, "CreateArchive refused a 2^31-1 byte member followed by two small ones: " << what);
+		{ VolFile v(out); V_CHECK(v.GetCount() == 3 && v.GetName(0) == "a_huge.bin" && v.GetName(1) == "m_late.txt" && v.GetName(2) == "Z_last.dat", "listing of the archive beyond 2 GiB");
+		  V_CHECK(v.GetSize(0) == 0x7FFFFFFFu && v.GetSize(1) == late.size() && v.GetSize(2) == last.size(), "sizes in the archive beyond 2 GiB");
+		  for (size_t i : {size_t(1), size_t(2), size_t(1)}) { const auto& want = i == 1 ? late : last;
+			o = guarded([&] { auto s = v.OpenStream(i); std::vector<uint8_t> got(size_t(s->Length())); s->Read(got.data(), got.size()); V_CHECK(got == want, "stream of member " << i << " (block beyond 2^31) delivers other bytes"); }, &what);
+			V_CHECK(o == Out::Ok, "OpenStream(" << i << ") of a member whose block starts beyond 2^31 threw: " << what);
+			o = guarded([&] { auto s = static_cast<ArchiveFile&>(v).OpenStream(i == 1 ? "M_LATE.TXT" : "z_last.DAT"); std::vector<uint8_t> got(size_t(s->Length())); s->Read(got.data(), got.size()); V_CHECK(got == want, "stream by name of member " << i << " delivers other bytes"); }, &what);
+			V_CHECK(o == Out::Ok, "OpenStream(name) of a member whose block starts beyond 2^31 threw: " << what);
+			o = guarded([&] { v.ExtractFile(i, "%x/huge_one.bin"); }, &what); V_CHECK(o == Out::Ok, "ExtractFile(" << i << ") beyond 2^31 threw: " << what); V_CHECK(slurp("%x/huge_one.bin") == want, "extraction beyond 2^31 wrote other bytes"); remove("%x/huge_one.bin"); }
+		  auto s0 = v.OpenStream(0); V_CHECK(s0->Length() == 0x7FFFFFFFu, "length of the huge member stream"); uint8_t b3[3]; s0->Read(b3, 3); V_CHECK(b3[0] == 7 && b3[2] == 9, "first bytes of the huge member"); s0->Seek(uint64_t(0x7FFFFFFF) - 3); s0->Read(b3, 3); V_CHECK(b3[0] == 0xE1 && b3[2] == 0xE3, "last bytes of the huge member"); }
+		remove(out.c_str()); remove(big.c_str()); remove("%in/m_late.txt"); remove("%in/Z_last.dat");
 	}
 	// many members: names built systematically from letters of both cases, digits and the punctuation that sorts between the
 	// letter cases, so that every pair-ordering corner (prefix, case, '_' vs letter, '[' vs 'a') occurs next to each other
